@@ -32,6 +32,13 @@ class _RoundTripNumPyPrinter(NumPyPrinter):
                 return repr(v)
         return super()._print_Float(expr)
 
+    # `pi` and `e` would be shadowed by an argument of the lambdified function that has the same name
+    def _print_Pi(self, expr):
+        return repr(float(expr))
+
+    def _print_Exp1(self, expr):
+        return repr(float(expr))
+
 
 def _lambdify_printer():
     # the settings lambdify itself gives to its default NumPyPrinter for `modules`
